@@ -669,6 +669,10 @@ def expected_findings(spec, opts):
                                       bool(c.get("mask")), c.get("vp"), c.get("measure"),
                                       None if not b else [b["n"], b["props"], b.get("vbase", ("own", j)), b.get("vdelta")]]))
         return sorted(out)
+    clim_axes = {tuple(c["axes"]) for c in cons if c.get("climatology")}
+    if spec["kind"] == "domain" and any(c.get("bounds") and not c.get("climatology") and tuple(c["axes"]) in clim_axes
+                                        and c["type"] in ("dim", "aux") for c in cons):
+        out.append("bounds-beside-climatological-coordinate-written-as-climatology")   # repaired by C01-fix3-4
     dimc = {}
     for j, c in enumerate(cons):
         if c["type"] == "dim" and len(c["axes"]) == 1:
@@ -760,6 +764,7 @@ FIXED = {
     "formula-terms:grid-mapping-lists-the-vertical-coordinate",    # C01-fix2-23
     "bounds-dimension-name-shared-by-size",                        # C01-fix3-3
     "index-variable-sample-dimension-name",                        # C01-fix3-1 (names of a compressed case)
+    "bounds-beside-climatological-coordinate-written-as-climatology",   # C01-fix3-4
     "equal-dimension-coordinates-share-a-netcdf-dimension",        # C01-fix3-2 (square family)
 }
 
